@@ -2,6 +2,6 @@
 # tools/try_seed.sh <worktree-with-change-applied> <check id>...   -- run checks against a scratch tree (does not touch /repo)
 wt=$1; shift
 for id in "$@"; do
-  VERIF_REPO=$wt ./check $id --tier quick > /tmp/seed_$id.log 2>&1
-  echo "$id rc=$? viol=$(grep -c '^VIOLATION' /tmp/seed_$id.log) :: $(grep -m2 'what:' /tmp/seed_$id.log | tr '\n' ' ' | cut -c1-260)"
+  VERIF_REPO=$wt ./check $id --tier quick > /tmp/seed_${SEED_TAG}$id.log 2>&1
+  echo "$id rc=$? viol=$(grep -c '^VIOLATION' /tmp/seed_${SEED_TAG}$id.log) :: $(grep -m2 'what:' /tmp/seed_${SEED_TAG}$id.log | tr '\n' ' ' | cut -c1-260)"
 done
